@@ -10,6 +10,7 @@ pub trait Monitor {
 
 pub mod c01;
 pub mod c02;
+pub mod c03;
 pub mod c04;
 pub mod c05;
 pub mod c09;
@@ -20,6 +21,7 @@ pub fn create(a: &Args) -> Option<Box<dyn Monitor>> {
     match a.prop.as_str() {
         "C01" => Some(Box::new(c01::C01::new(a))),
         "C02" => Some(Box::new(c02::C02::new(a))),
+        "C03" => Some(Box::new(c03::C03::new(a))),
         "C04" => Some(Box::new(c04::C04::new(a))),
         "C05" => Some(Box::new(c05::C05::new(a))),
         "C09" => Some(Box::new(c09::C09::new(a))),
